@@ -6,6 +6,7 @@ package receiveutil
 import (
 	"fmt"
 	"go/ast"
+	"io"
 	"go/token"
 	"net/http"
 	"strings"
@@ -306,4 +307,49 @@ func Skeleton(s *common.SrcFile, fn string) ([]common.Event, error) {
 		}
 	}
 	return out, nil
+}
+
+// QuorumFacts writes the facts C22 needs from pkg/receive/handler.go:
+// writeQuorum, the failureThreshold expression, the skeleton of
+// canReturnEarly and the conditions under which fanoutForward adds a series
+// error (the tests on failures[i]).
+func QuorumFacts(s *common.SrcFile, w io.Writer) error {
+	d, err := TranslateMethodWithFields(s, "Handler.writeQuorum", "writeQuorum",
+		map[string]string{"h.options.ReplicationFactor": "rf"}, []string{"rf"})
+	if err != nil {
+		return err
+	}
+	fmt.Fprintln(w, "(* pkg/receive/handler.go: Handler.writeQuorum; rf = h.options.ReplicationFactor *)")
+	fmt.Fprintln(w, d)
+	rhs, err := s.RHS("Handler.fanoutForward", "failureThreshold")
+	if err != nil {
+		return err
+	}
+	rhs = SubstExpr(rhs, ReplaceSelectors(s, map[string]string{"len(params.replicas)": "nreplicas"}))
+	d, err = ExprDefinition(s, "failureThreshold_expr", rhs, []string{"nreplicas", "successThreshold"})
+	if err != nil {
+		return err
+	}
+	fmt.Fprintln(w, "(* fanoutForward: failureThreshold := ...; nreplicas = len(params.replicas) *)")
+	fmt.Fprintln(w, d)
+	evs, err := Skeleton(s, "canReturnEarly")
+	if err != nil {
+		return err
+	}
+	fmt.Fprintf(w, "(* canReturnEarly: if/return skeleton in source order *)\n%s\n", common.EventsCoq("canReturnEarly_skeleton", evs))
+	evs, err = Skeleton(s, "Handler.fanoutForward")
+	if err != nil {
+		return err
+	}
+	var sel []common.Event
+	for _, e := range evs {
+		if e.Kind == "if" && (strings.Contains(e.Text, "failures[") || strings.Contains(e.Text, "canReturnEarly") || e.Text == "!hasMore" || e.Text == "resp.err != nil" || e.Text == "params.alreadyReplicated") {
+			sel = append(sel, e)
+		}
+		if e.Kind == "return" && strings.Contains(e.Text, "writeErrors.ErrOrNil()") {
+			sel = append(sel, e)
+		}
+	}
+	fmt.Fprintf(w, "(* fanoutForward: the decisions of the response loop, in source order *)\n%s\n", common.EventsCoq("fanout_decisions", sel))
+	return nil
 }
